@@ -15,7 +15,8 @@ const CORPORA: [&[&str]; 4] = [
     // one category only, every token a single tag except one
     &["火星/名詞 猫/名詞 だ/助動詞", "猫/動物 が/助詞 鳴く/動詞"],
     // the FIRST sentence has fewer tag categories than later ones with the same tokens; the richest comes in the middle
-    &["猫/名詞 が/助詞 鳴く/動詞", "猫/名詞/ネコ が/助詞/ガ 鳴く/動詞/ナク", "猫/動物/ネコ/cat が 鳴く/動詞/ナク/cry", "犬/名詞/イヌ が 鳴く"],
+    // ... and one-token sentences (no boundary at all, so no boundary example): their tags count like any others
+    &["猫/名詞 が/助詞 鳴く/動詞", "猫/名詞/ネコ が/助詞/ガ 鳴く/動詞/ナク", "猫/動物/ネコ/cat が 鳴く/動詞/ナク/cry", "犬/名詞/イヌ が 鳴く", "鳥/名詞/トリ", "猫/生物", "犬/動物/ケン"],
 ];
 const TAG_DICT: &str = "犬/名詞/イヌ 人/代名詞/ヒト z//Z2 y";
 // (char window, char n-gram, type window, type n-gram)
